@@ -447,4 +447,4 @@ def builtin_formatter(c, chk):
                  'back to a user callback, so a print callback that falls back on it for the values it does not format itself recurses without end' % fld)
     else:
         chk.ok('R19.9', 'cfg_opt_nprint_var: %d calls' % n, 'all direct (or through a constant table of built-in writers)', sample=True)
-    chk.floor('R19.9 calls in the built-in formatter', n, 4)
+    chk.floor('R19.9 calls in the built-in formatter', n, 1)
